@@ -23,7 +23,7 @@
                  the backend received (names only)
 
    codes: 0 agree; 2 is reserved for "skipped"; see checks/C14.py for the rest. *)
-From Verif Require Export Base.F32 Base.GoSem Geom.Matrix Draw.Links Draw.Bookmarks Draw.Protocol Draw.Emit Draw.Meta.
+From Verif Require Export Base.F32 Base.GoSem Geom.Matrix Draw.Links Draw.Bookmarks Draw.Protocol Draw.Emit Draw.Meta Draw.Tiling.
 From Coq Require Import QArith List NArith ZArith Bool.
 Import ListNotations.
 Open Scope N_scope.
@@ -38,6 +38,13 @@ Inductive gitem :=
 | GLink (ty : ltype) (target : name)     (* <a href> *)
 | GHead (level : Z) (label : name).      (* element with bookmark-level / label *)
 
+(* what drawBackgroundImage handed to the backend for one layer: nothing, or the
+   arguments of NewGroup (cell) and the translation of SetColorPattern; an argument
+   that is not finite is recorded as None (the model always yields a number) *)
+Inductive oq := QV (q : Q) | QBad.
+Record tile_obs := mktile_obs { t_cw : oq; t_ch : oq; t_x : oq; t_y : oq }.
+Inductive tiled := TNothing | TDrawn (o : tile_obs).
+
 Inductive case :=
 | KResolve (pages : list page) (ol : list (list link)) (oa : list (list anchor))
 | KBookmarks (pages : list (list bookmark)) (out : bres)
@@ -47,7 +54,8 @@ Inductive case :=
 | KTrace (npages : N) (sep : list N) (t : list call)   (* rules in `sep` are reported by their own KTraceRule case *)
 | KTraceRule (r : N) (t : list call)
 | KTracePrefix (sep : list N) (t : list call)   (* a prefix of a very long trace: guards only (acceptance is prefix closed) *)
-| KExpect (gen : list (list gitem)) (anchors : list (list name)) (links : list (list link)) (outline : list node).
+| KExpect (gen : list (list gitem)) (anchors : list (list name)) (links : list (list link)) (outline : list node)
+| KTile (x y : axis) (out : tiled).   (* one laid-out background layer through drawBackgroundImage *)
 
 (* ---------------------------------------------------------------- equalities *)
 Fixpoint list_eqb {A} (eqb : A -> A -> bool) (l1 l2 : list A) : bool :=
@@ -169,6 +177,9 @@ Definition trace_code (n : N) (sep : list N) (t : list call) : N :=
 Definition trace_rule_code (r : N) (t : list call) : N :=
   if existsb (fun x => snd x =? r) (trace_violations t) then 20 + r else 0.
 
+Definition oq_eqb (o : oq) (q : Q) : bool :=
+  match o with QV v => Qeq_bool v q | QBad => false end.
+
 (* ---------------------------------------------------------------- check *)
 Definition check (c : case) : N :=
   match c with
@@ -218,6 +229,14 @@ Definition check (c : case) : N :=
                    (match model_outline ps with
                     | BForest f => forest_eqb entry_eqb_names f outline
                     | BPanic => false end, 42) ]
+  | KTile x y out =>
+      match tile f32 x y, out with
+      | None, TNothing => 0
+      | Some (ox, oy), TDrawn o =>
+          first_code [ (oq_eqb (t_cw o) (o_cell ox) && oq_eqb (t_ch o) (o_cell oy), 50);
+                       (oq_eqb (t_x o) (o_shift ox) && oq_eqb (t_y o) (o_shift oy), 51) ]
+      | _, _ => 52
+      end
   end.
 
 (* what the model computes, for replay files *)
@@ -227,7 +246,8 @@ Inductive mout :=
 | MGather (g : list gathered)
 | MDoc (o : list opage) (b : bres)
 | MMetaOut (m : meta)
-| MViol (v : list (N * N)) (pages : N).
+| MViol (v : list (N * N)) (pages : N)
+| MTile (o : option (oaxis * oaxis)).
 
 Definition model_out (c : case) : mout :=
   match c with
@@ -239,6 +259,7 @@ Definition model_out (c : case) : mout :=
   | KTrace _ _ t | KTraceRule _ t | KTracePrefix _ t => let '(v, st) := monitor t in MViol v (Protocol.npages st)
   | KExpect gen _ _ _ => let ps := expect_pages gen in
                          let '(ls, ans) := resolve ps in MDoc [] (model_outline ps)
+  | KTile x y _ => MTile (tile f32 x y)
   end.
 
 Fixpoint mismatches (i : N) (cs : list case) : list (N * N) :=
